@@ -202,9 +202,25 @@ func checkParseValid(cd *concDoc) error {
 			if err := jsonx.EqualTree(want, got, "$"); err != nil {
 				return fmt.Errorf("parsed tree differs from the reference decoder (variant %d): %v", vi, err)
 			}
+			// what a caller does to a parsed container must not leak into later parses
+			growAll(p)
 		}
 		return nil
 	})
+}
+
+// growAll adds an element / a field to every container of a parsed result.
+func growAll(x any) {
+	switch v := x.(type) {
+	case at.List:
+		for i := 0; i < v.Count(); i++ {
+			growAll(v.Get(i))
+		}
+		v.Add("grown-by-the-caller")
+	case at.Object:
+		v.ForEachValue(func(e any) { growAll(e) })
+		v.Set("grown-by-the-caller", true)
+	}
 }
 
 func cmdParse(args []string) int {
@@ -539,6 +555,39 @@ func cmdTotal(args []string) int {
 			report("total", s, err)
 		}
 	})
+	// inputs assembled from escape / literal fragments (partial \\u escapes, surrogate halves, exponents ...)
+	frags := []string{"[", "]", "{", "}", ",", ":", "\"", "\\", "\\u", "d83d", "de0", "00", "0", "x", " ", "\n", "1", "e", "+", "-", ".", "true", "nul", "\\ud83d\\ude00", "\\ud83d\\ude0", "\\u12"}
+	nf := len(frags)
+	fragTotal := nf * nf * nf * nf
+	if *maxLen < 5 {
+		fragTotal = nf * nf * nf
+	}
+	parallel((fragTotal+4095)/4096, *workers, func(ci int) {
+		if st.nviol() > 0 {
+			return
+		}
+		for x := ci * 4096; x < (ci+1)*4096 && x < fragTotal; x++ {
+			v := x
+			var b strings.Builder
+			for j := 0; j < 4; j++ {
+				if j == 3 && *maxLen < 5 {
+					break
+				}
+				b.WriteString(frags[v%nf])
+				v /= nf
+			}
+			for _, s := range []string{"[\"" + b.String() + "\"]", "{\"" + b.String() + "\":1}", "[" + b.String() + "]"} {
+				wd.enter(3000+ci%64, s)
+				err := checkTotal(s)
+				wd.leave(3000 + ci%64)
+				if err != nil {
+					report("total", s, err)
+					return
+				}
+			}
+		}
+	})
+	atomic.AddInt64(&st.evals, int64(fragTotal)*6)
 	// (2)-(4) on serialised documents
 	var docs []*docRec
 	if *in != "" {
